@@ -26,56 +26,65 @@ def render(val):
 
 
 def script_text(df, ver, rule):
-    """POSIX sh text of version `ver` of .do file `df`; rule = {target: [ops]}"""
+    """POSIX sh text of version `ver` of .do file `df`; rule = {target: [ops]}.  Names are project-relative;
+    the script runs in the directory of `df`, so targets and dependencies are rewritten relative to it."""
+    import posixpath
+    here = posixpath.dirname(df)
+
+    def rel(n):
+        return posixpath.relpath(n, here or '.')
     lines = ['# %s version %d (generated)' % (df, ver),
              'rd() { if [ -e "$1" ]; then tr -d "~" < "$1"; else printf "@none.0()"; fi; }',
              'vpad() { if [ "${VT_PAD:-0}" -gt 0 ]; then head -c "$VT_PAD" /dev/zero | tr "\\0" "~"; fi; }',
              'vjit() { if [ -n "${VT_JITTER:-}" ]; then _j=$(od -An -N1 -tu1 /dev/urandom); sleep 0.0$((_j % 4))$((_j % 7)); fi; }',
-             'echo "start $1" >> "$VT_LOG"',
-             'vjit',
              'case "$1" in']
     for t, ops in rule.items():
-        lines.append('  %s)' % shquote(t))
+        lines.append('  %s)' % shquote(rel(t)))
+        lines.append('    echo "start %s" >> "$VT_LOG"; vjit' % t)
         for o in ops:
             op = o['op']
-            args = ' '.join(shquote(a) for a in o['args'])
+            args = ' '.join(shquote(rel(a)) for a in o['args'])
             if op == 'ifchange':
                 lines.append('    redo-ifchange %s; vjit' % args)
             elif op == 'ifcreate':
                 lines.append('    redo-ifcreate %s' % args)
             elif op == 'watch':
-                a = shquote(o['args'][0])
+                a = shquote(rel(o['args'][0]))
                 lines.append('    if [ -e %s ]; then redo-ifchange %s; else redo-ifcreate %s; fi' % (a, a, a))
             elif op == 'always':
                 lines.append('    redo-always')
             elif op == 'out':
-                reads = ','.join('$(rd %s)' % shquote(a) for a in o['args'])
+                reads = ','.join('$(rd %s)' % shquote(rel(a)) for a in o['args'])
                 lines.append('    OUT="%s@%s.%d(%s)"' % (t, df, o['rc'] if o['rc'] else ver, reads))
                 ch = o['ch']
                 if ch in ('stdout', 'both'):
                     lines.append('    printf "%s" "$OUT"; vpad')
                 if ch in ('file', 'both'):
                     lines.append('    { printf "%s" "$OUT"; vpad; } > "$3"')
-                if ch == 'direct':
+                if ch in ('direct', 'directold'):
                     lines.append('    { printf "%s" "$OUT"; vpad; } > "$1"')
+                if ch == 'directold':
+                    # older than anything redo recorded, but never the same instant twice (redo recognises a direct
+                    # write by a changed mtime; identical forged mtimes are outside the model: "distinct mtimes per edit")
+                    lines.append('    touch -d "2001-02-03 04:05:06.$(date +%N)" "$1"')
             elif op == 'stamp':
                 lines.append('    printf "%s" "$OUT" | redo-stamp')
             elif op == 'exit':
-                lines.append('    echo "exit $1 %d" >> "$VT_LOG"' % o['rc'])
+                lines.append('    echo "exit %s %d" >> "$VT_LOG"' % (t, o['rc']))
                 if o['rc'] < 0:
                     lines.append('    kill -%d $$' % (-o['rc']))     # die by signal: status -signo
                 else:
                     lines.append('    exit %d' % o['rc'])
             elif op == 'gate':
-                lines.append('    echo "gate $1 %s" >> "$VT_LOG"; read _x < "$VT_GATES/%s"' % (o['args'][0], o['args'][0]))
+                lines.append('    echo "gate %s %s" >> "$VT_LOG"; read _x < "$VT_GATES/%s"' % (t, o['args'][0], o['args'][0]))
             elif op == 'err':
                 lines.append('    echo %s >&2' % shquote(o['args'][0]))
             else:
                 raise ValueError(op)
+        lines.append('    echo "end %s" >> "$VT_LOG"' % t)
         lines.append('    ;;')
     lines.append('  *) echo "no rule for $1 in %s" >&2; exit 99 ;;' % df)
     lines.append('esac')
-    lines.append('echo "end $1" >> "$VT_LOG"')
     return '\n'.join(lines) + '\n'
 
 
@@ -304,6 +313,7 @@ class Project:
                             self.observed[n].add((None, 0))
                         except OSError:
                             pass
+                    time.sleep(0.0003)
             th = threading.Thread(target=reader, daemon=True)
             th.start()
         timed_out = False
@@ -474,7 +484,7 @@ def replay_group(prog, alts, root, bindir, trace=None, log_mode=None, jflag=None
     pj = Project(prog, root, bindir, trace=trace, log_mode=log_mode, pad=pad, watch=watch, jitter=jitter)
     report = []
     live = list(alts)
-    direct = any(o['op'] == 'out' and o['ch'] == 'direct' for vers in prog['rules'].values()
+    direct = any(o['op'] == 'out' and o['ch'] in ('direct', 'directold') for vers in prog['rules'].values()
                  for ver in vers for ops in ver.values() for o in ops)
 
     def want_cat(cat):
@@ -487,6 +497,9 @@ def replay_group(prog, alts, root, bindir, trace=None, log_mode=None, jflag=None
             pj.write_user(step['n'], step['v'])
         elif a == 'rm':
             pj.remove(step['n'])
+        elif a == 'tmp':
+            with open(pj.path(step['n']) + '.redo.tmp', 'w') as f:
+                f.write('stale partial output of an earlier, killed build\n')
         elif a in ('doedit', 'doadd'):
             pj.write_do(step['n'], step['v'])
         elif a == 'crash' or (a == 'cmd' and step.get('killed')):
